@@ -7,9 +7,14 @@ decided here, symbolically:
 * `DiffractionPatterns.limits`: for n = 2m (even) the pair of axis k is (-m s_k, (m-1) s_k), for n = 2m+1 (odd) it is
   (-m s_k, m s_k), built from the length and the sampling of the same axis k.  The property body is interpreted over
   the terms n_k = 2 m_k + p_k for every parity pattern; floor division and `% 2` are evaluated exactly on those terms.
-* `DiffractionPatterns.angular_limits`: element [k][j] is limits[k][j] times the factor by which `angular_sampling[k]`
-  differs from `sampling[k]` (one unit conversion for limits and pixel size, otherwise linspace(lower, upper, n) does
-  not have the pitch the pattern publishes).
+* `DiffractionPatterns.angular_sampling`: element k is sampling[k] * wavelength * 1e3 (scattering angle = wavelength
+  times spatial frequency, in mrad).
+* `DiffractionPatterns.angular_limits`: for an axis of n points the pair of axis k is (-(n//2) a_k, (n-1-n//2) a_k) with
+  a_k = angular_sampling[k] — the ends of the centred angular grid; otherwise linspace(lower, upper, n) does not have
+  the pitch the pattern publishes or puts the zero angle on another pixel than fftshift does.  The property is
+  EVALUATED, for every parity pattern, through whatever properties it reads (`limits`, `offset`, `max_angles`,
+  `angular_sampling`, `sampling`, ... inlined along the MRO; loops, comprehensions, zip, stores through aliases) into a
+  polynomial in m_k, S_k and the wavelength; it is not required to be written as a scaling of `self.limits`.
 * `DiffractionPatterns.angular_coordinates`: the k-th vector is linspace(limits[k][0], limits[k][1], shape[-2+k]) —
   from the lower to the upper limit of the same axis, with that axis' length.
 """
@@ -236,73 +241,397 @@ def _single_return(f: FuncInfo) -> ast.Return:
     return rets[0]
 
 
+class _Shape:
+    """`self.shape` / `self.array.shape`: only the two pattern axes are known (n0, n1); the number of leading
+    ensemble axes is not."""
+
+
+class PropEval:
+    """Exact symbolic evaluation of the scalar/tuple-valued properties of DiffractionPatterns for one parity pattern.
+
+    Values are `Poly` (numbers over the atoms m_k, S_k, λ with n_k = 2 m_k + p_k), Python lists (tuples and lists,
+    identity preserved so that stores through an alias are seen) and strings.  `self.<property>` is evaluated through
+    the body of the property as resolved along the MRO (a fresh value per read); the leaves are the pattern shape, the
+    stored sampling and the energy in the metadata.  Anything else is outside the domain (AnalysisError)."""
+
+    LAMBDA = "λ"
+    ENERGY = "E"
+
+    def __init__(self, repo, parities: tuple[int, int], modname: str = MEAS, cname: str = DP):
+        self.repo = repo
+        self.cls = repo.cls(modname, cname)
+        self.sym = _Sym(None, parities)
+        self.parities = parities
+        self.stack: list[FuncInfo] = []
+        self.memo: dict[str, object] = {}
+
+    # -------------------------------------------------------------------------------------------- helpers
+    @property
+    def where(self) -> str:
+        return self.stack[-1].qualname if self.stack else f"{self.cls.qualname}"
+
+    def err(self, msg: str) -> AnalysisError:
+        return AnalysisError(f"{self.where}: {msg}")
+
+    def _int(self, v, what: ast.AST) -> int:
+        c = v.const_value() if isinstance(v, Poly) else None
+        if c is None or c.denominator != 1:
+            raise self.err(f"`{norm_text(what)[:40]}` is not a constant integer")
+        return int(c)
+
+    def _integral(self, p: Poly) -> bool:
+        return self.sym._integral(p)
+
+    # -------------------------------------------------------------------------------------------- properties
+    def prop(self, name: str):
+        if name in self.memo:
+            return copy.deepcopy(self.memo[name])
+        f = self.cls.find_method(name, "getter")
+        if f is None or not f.is_property or f.is_abstract:
+            raise self.err(f"`self.{name}` is not a property with a readable body")
+        if any(g is f for g in self.stack) or len(self.stack) > 8:
+            raise self.err(f"`self.{name}` is read recursively")
+        self.stack.append(f)
+        try:
+            done, val = self.exec(f.body, {})
+            if not done:
+                raise self.err("the property body ends without a return")
+        finally:
+            self.stack.pop()
+        self.memo[name] = val
+        return copy.deepcopy(val)
+
+    def self_attr(self, name: str):
+        if name in ("shape",):
+            return _Shape()
+        if name in ("base_shape",):
+            return [self.sym.n[0], self.sym.n[1]]
+        if name == "_sampling":
+            return [self.sym.S[0], self.sym.S[1]]
+        return self.prop(name)
+
+    # -------------------------------------------------------------------------------------------- expressions
+    def arith(self, op: ast.operator, a, b, e: ast.AST):
+        if isinstance(op, ast.Add) and isinstance(a, list) and isinstance(b, list):
+            return a + b
+        if not (isinstance(a, Poly) and isinstance(b, Poly)):
+            raise self.err(f"`{norm_text(e)[:50]}`: operands are not numbers")
+        if isinstance(op, ast.Add):
+            return a + b
+        if isinstance(op, ast.Sub):
+            return a - b
+        if isinstance(op, ast.Mult):
+            return a * b
+        if isinstance(op, ast.Div):
+            if b.is_monomial():
+                return a * b.inverse()
+            raise self.err(f"`{norm_text(e)[:50]}`: division outside the term domain")
+        if isinstance(op, ast.Pow):
+            c = b.const_value()
+            if c is None or c.denominator != 1 or not (0 <= c <= 8):
+                raise self.err(f"`{norm_text(e)[:50]}`: exponent outside the term domain")
+            return a.power(c)
+        if isinstance(op, (ast.FloorDiv, ast.Mod)):
+            c = b.const_value()
+            if c is None or c.denominator != 1 or c <= 0 or not self._integral(a):
+                raise self.err(f"`{norm_text(e)[:50]}` is not an integer division by a positive constant")
+            c = int(c)
+            k0 = a.terms.get((), Fraction(0))
+            rest = Poly({m: v for m, v in a.terms.items() if m != ()})
+            if any(v % c for v in rest.terms.values()):
+                raise self.err(f"`{norm_text(e)[:50]}`: the quotient by {c} is not decided by the parity alone")
+            if isinstance(op, ast.Mod):
+                return Poly.const(int(k0) % c)
+            return Poly({m: v / c for m, v in rest.terms.items()}) + Poly.const(int(k0) // c)
+        raise self.err(f"`{norm_text(e)[:50]}`: operator outside the term domain")
+
+    def truth(self, t: ast.expr, env: dict) -> bool:
+        if isinstance(t, ast.UnaryOp) and isinstance(t.op, ast.Not):
+            return not self.truth(t.operand, env)
+        if isinstance(t, ast.BoolOp):
+            vs = [self.truth(v, env) for v in t.values]
+            return all(vs) if isinstance(t.op, ast.And) else any(vs)
+        if isinstance(t, ast.Compare) and len(t.ops) == 1:
+            a, b = self.ev(t.left, env), self.ev(t.comparators[0], env)
+            ca = a.const_value() if isinstance(a, Poly) else None
+            cb = b.const_value() if isinstance(b, Poly) else None
+            if ca is None or cb is None:
+                raise self.err(f"test `{norm_text(t)[:50]}` is not decided by the parity")
+            op = t.ops[0]
+            table = {ast.Eq: ca == cb, ast.NotEq: ca != cb, ast.Lt: ca < cb, ast.LtE: ca <= cb, ast.Gt: ca > cb,
+                     ast.GtE: ca >= cb}
+            if type(op) not in table:
+                raise self.err(f"test `{norm_text(t)[:50]}` is outside the term domain")
+            return table[type(op)]
+        v = self.ev(t, env)
+        if isinstance(v, list):
+            return bool(v)
+        c = v.const_value() if isinstance(v, Poly) else None
+        if c is None:
+            raise self.err(f"test `{norm_text(t)[:50]}` is not decided by the parity")
+        return c != 0
+
+    def index(self, base, sl: ast.expr, env: dict, e: ast.AST):
+        if isinstance(sl, ast.Slice):
+            lo = None if sl.lower is None else self._int(self.ev(sl.lower, env), sl.lower)
+            hi = None if sl.upper is None else self._int(self.ev(sl.upper, env), sl.upper)
+            st = None if sl.step is None else self._int(self.ev(sl.step, env), sl.step)
+            if isinstance(base, _Shape):
+                if lo == -2 and hi is None and st in (None, 1):
+                    return [self.sym.n[0], self.sym.n[1]]
+                raise self.err(f"`{norm_text(e)[:40]}`: only the last two axes of the shape are known")
+            if isinstance(base, list):
+                return base[slice(lo, hi, st)]
+            raise self.err(f"`{norm_text(e)[:40]}`: slice of a number")
+        i = self._int(self.ev(sl, env), sl)
+        if isinstance(base, _Shape):
+            if i in (-2, -1):
+                return self.sym.n[i + 2]
+            raise self.err(f"`{norm_text(e)[:40]}`: only the last two axes of the shape are known")
+        if isinstance(base, list):
+            if not -len(base) <= i < len(base):
+                raise self.err(f"`{norm_text(e)[:40]}`: index out of range")
+            return base[i]
+        raise self.err(f"`{norm_text(e)[:40]}`: subscript of a number")
+
+    def bind(self, target: ast.expr, value, env: dict) -> None:
+        if isinstance(target, ast.Name):
+            env[target.id] = value
+            return
+        if isinstance(target, (ast.Tuple, ast.List)) and not any(isinstance(t, ast.Starred) for t in target.elts):
+            if not isinstance(value, list) or len(value) != len(target.elts):
+                raise self.err(f"cannot unpack into `{norm_text(target)[:40]}`")
+            for t, v in zip(target.elts, value):
+                self.bind(t, v, env)
+            return
+        if isinstance(target, ast.Subscript):
+            base = self.ev(target.value, env)
+            if not isinstance(base, list) or isinstance(target.slice, ast.Slice):
+                raise self.err(f"store into `{norm_text(target)[:40]}` is outside the term domain")
+            i = self._int(self.ev(target.slice, env), target.slice)
+            if not -len(base) <= i < len(base):
+                raise self.err(f"store into `{norm_text(target)[:40]}`: index out of range")
+            base[i] = value
+            return
+        raise self.err(f"assignment to `{norm_text(target)[:40]}` is outside the term domain")
+
+    def iterate(self, it: ast.expr, env: dict) -> list:
+        v = self.ev(it, env)
+        if not isinstance(v, list):
+            raise self.err(f"`{norm_text(it)[:40]}` is not a sequence of known length")
+        return list(v)
+
+    def comprehension(self, e, env: dict) -> list:
+        out: list = []
+
+        def rec(gi: int, scope: dict):
+            if gi == len(e.generators):
+                out.append(self.ev(e.elt, scope))
+                return
+            g = e.generators[gi]
+            if g.is_async:
+                raise self.err("async comprehension")
+            for item in self.iterate(g.iter, scope):
+                sc = dict(scope)
+                self.bind(g.target, item, sc)
+                if all(self.truth(c, sc) for c in g.ifs):
+                    rec(gi + 1, sc)
+
+        rec(0, dict(env))
+        return out
+
+    def call(self, e: ast.Call, env: dict):
+        name = call_name(e) or ""
+        last = name.split(".")[-1]
+        if e.keywords and not (last == "zip" and all(k.arg == "strict" for k in e.keywords)):
+            raise self.err(f"call `{norm_text(e)[:50]}` with keywords is outside the term domain")
+        if any(isinstance(a, ast.Starred) for a in e.args):
+            raise self.err(f"call `{norm_text(e)[:50]}` with a starred argument")
+        if name == "self._get_from_metadata" and len(e.args) == 1:
+            k = self.ev(e.args[0], env)
+            if k == "energy":
+                return Poly.atom(self.ENERGY)
+            raise self.err(f"metadata entry `{norm_text(e.args[0])[:30]}` is outside the term domain")
+        if last == "energy2wavelength" and len(e.args) == 1:
+            a = self.ev(e.args[0], env)
+            if a == Poly.atom(self.ENERGY):
+                return Poly.atom(self.LAMBDA)
+            raise self.err(f"`{norm_text(e)[:50]}`: not the wavelength at the energy of the measurement")
+        if name in ("int", "float") and len(e.args) == 1:
+            v = self.ev(e.args[0], env)
+            if not isinstance(v, Poly) or (name == "int" and not self._integral(v)):
+                raise self.err(f"`{norm_text(e)[:50]}` is outside the term domain")
+            return v
+        if name in ("tuple", "list") and len(e.args) <= 1:
+            return list(self.iterate(e.args[0], env)) if e.args else []
+        if name == "zip":
+            cols = [self.iterate(a, env) for a in e.args]
+            if len({len(c) for c in cols}) > 1:
+                raise self.err(f"`{norm_text(e)[:50]}` zips sequences of different lengths")
+            return [list(t) for t in zip(*cols)]
+        if name == "enumerate" and len(e.args) == 1:
+            return [[Poly.const(i), v] for i, v in enumerate(self.iterate(e.args[0], env))]
+        if name == "reversed" and len(e.args) == 1:
+            return list(reversed(self.iterate(e.args[0], env)))
+        if name == "range" and 1 <= len(e.args) <= 3:
+            return [Poly.const(i) for i in range(*[self._int(self.ev(a, env), a) for a in e.args])]
+        if name == "len" and len(e.args) == 1:
+            v = self.ev(e.args[0], env)
+            if isinstance(v, list):
+                return Poly.const(len(v))
+        raise self.err(f"call `{norm_text(e)[:50]}` is outside the term domain")
+
+    def ev(self, e: ast.expr, env: dict):
+        if isinstance(e, ast.Constant):
+            if isinstance(e.value, (int, float)) and not isinstance(e.value, bool):
+                return Poly.const(Fraction(repr(e.value)) if isinstance(e.value, float) else e.value)
+            if isinstance(e.value, str):
+                return e.value
+            raise self.err(f"constant `{norm_text(e)[:30]}` is outside the term domain")
+        if isinstance(e, ast.Name):
+            if e.id in env:
+                return env[e.id]
+            raise self.err(f"name `{e.id}` has no value in the term domain")
+        if isinstance(e, ast.Attribute):
+            d = dotted(e)
+            if isinstance(e.value, ast.Name) and e.value.id == "self":
+                return self.self_attr(e.attr)
+            if d == "self.array.shape":
+                return _Shape()
+            raise self.err(f"`{norm_text(e)[:40]}` is outside the term domain")
+        if isinstance(e, ast.Subscript):
+            if dotted(e.value) == "self.metadata" and isinstance(e.slice, ast.Constant) and e.slice.value == "energy":
+                return Poly.atom(self.ENERGY)
+            return self.index(self.ev(e.value, env), e.slice, env, e)
+        if isinstance(e, (ast.Tuple, ast.List)):
+            if any(isinstance(x, ast.Starred) for x in e.elts):
+                raise self.err(f"`{norm_text(e)[:40]}`: starred element")
+            return [self.ev(x, env) for x in e.elts]
+        if isinstance(e, ast.UnaryOp):
+            if isinstance(e.op, ast.Not):
+                return Poly.const(0 if self.truth(e.operand, env) else 1)
+            v = self.ev(e.operand, env)
+            if isinstance(v, Poly) and isinstance(e.op, (ast.USub, ast.UAdd)):
+                return -v if isinstance(e.op, ast.USub) else v
+            raise self.err(f"`{norm_text(e)[:40]}` is outside the term domain")
+        if isinstance(e, ast.BinOp):
+            return self.arith(e.op, self.ev(e.left, env), self.ev(e.right, env), e)
+        if isinstance(e, ast.IfExp):
+            return self.ev(e.body if self.truth(e.test, env) else e.orelse, env)
+        if isinstance(e, (ast.ListComp, ast.GeneratorExp)):
+            return self.comprehension(e, env)
+        if isinstance(e, ast.Call):
+            return self.call(e, env)
+        if isinstance(e, (ast.Compare, ast.BoolOp)):
+            return Poly.const(1 if self.truth(e, env) else 0)
+        raise self.err(f"`{norm_text(e)[:50]}` is outside the term domain")
+
+    # -------------------------------------------------------------------------------------------- statements
+    def exec(self, body: list, env: dict) -> tuple[bool, object]:
+        for st in body:
+            if isinstance(st, ast.Pass) or (isinstance(st, ast.Expr) and isinstance(st.value, ast.Constant)):
+                continue
+            if isinstance(st, ast.Assign):
+                v = self.ev(st.value, env)
+                for t in st.targets:
+                    self.bind(t, v, env)
+                continue
+            if isinstance(st, ast.AnnAssign) and st.value is not None:
+                self.bind(st.target, self.ev(st.value, env), env)
+                continue
+            if isinstance(st, ast.AugAssign):
+                cur = self.ev(st.target, env)
+                v = self.ev(st.value, env)
+                if isinstance(cur, list) and isinstance(st.op, ast.Add):
+                    if not isinstance(v, list):
+                        raise self.err(f"`{norm_text(st)[:50]}` extends a list by a number")
+                    cur.extend(v)
+                    continue
+                self.bind(st.target, self.arith(st.op, cur, v, st), env)
+                continue
+            if isinstance(st, ast.Expr) and isinstance(st.value, ast.Call) and isinstance(st.value.func, ast.Attribute) \
+                    and st.value.func.attr in ("append", "extend") and len(st.value.args) == 1 and not st.value.keywords:
+                base = self.ev(st.value.func.value, env)
+                v = self.ev(st.value.args[0], env)
+                if not isinstance(base, list) or (st.value.func.attr == "extend" and not isinstance(v, list)):
+                    raise self.err(f"`{norm_text(st)[:50]}` is outside the term domain")
+                if st.value.func.attr == "append":
+                    base.append(v)
+                else:
+                    base.extend(v)
+                continue
+            if isinstance(st, ast.If):
+                done, val = self.exec(st.body if self.truth(st.test, env) else st.orelse, env)
+                if done:
+                    return True, val
+                continue
+            if isinstance(st, ast.For) and not st.orelse:
+                for item in self.iterate(st.iter, env):
+                    self.bind(st.target, item, env)
+                    done, val = self.exec(st.body, env)
+                    if done:
+                        return True, val
+                continue
+            if isinstance(st, ast.Return) and st.value is not None:
+                return True, self.ev(st.value, env)
+            raise self.err(f"statement `{norm_text(st)[:50]}` is outside the interpreter of R-LIMITS")
+        return False, None
+
+
+def _pair_of_polys(v) -> bool:
+    return isinstance(v, list) and len(v) == 2 and all(isinstance(x, Poly) for x in v)
+
+
 def check_angular_limits(ctx, rule: str, repo) -> None:
     f = repo.method(MEAS, DP, "angular_limits")
     g = repo.method(MEAS, DP, "angular_sampling")
-    # the conversion factor angular_sampling[k] / sampling[k]
-    rg = _single_return(g)
-    dg = DataFlow(g.node)
-    if not (isinstance(rg.value, ast.Tuple) and len(rg.value.elts) == 2):
-        raise AnalysisError(f"{g.qualname}: does not return a pair")
-    nzg = FlowNormalizer(dg, dg.cfg.node_of(rg).idx)
-    factor = []
-    for k in (0, 1):
-        fk = nzg.norm(rg.value.elts[k]) * nzg.norm(ast.parse(f"self.sampling[{k}]", mode="eval").body).inverse()
-        if any("sampling" in a for a in fk.atoms()):
-            raise AnalysisError(f"{g.qualname}: element {k} is not a multiple of self.sampling[{k}]")
-        factor.append(fk)
-    # angular_limits: per-axis stores into (a copy of) self.limits, or a comprehension over it
-    df = DataFlow(f.node)
-    rf = _single_return(f)
-    elems: dict[tuple[int, int], tuple[Poly, Poly, ast.AST]] = {}
-    val = rf.value
-    node = df.cfg.node_of(rf).idx
-    if isinstance(val, ast.Name):
-        var = val.id
-        strong = [d for d in df.reaching(node, var) if d.strong]
-        if len(strong) != 1 or strong[0].kind != "assign" or dotted(strong[0].value) != "self.limits":
-            raise AnalysisError(f"{f.qualname}: the returned list is not derived from self.limits by per-axis stores")
-        for st in walk_no_nested(f.node):
-            if isinstance(st, ast.Assign) and len(st.targets) == 1 and isinstance(st.targets[0], ast.Subscript) \
-                    and dotted(st.targets[0].value) == var:
-                try:
-                    k = ast.literal_eval(st.targets[0].slice)
-                except Exception:
-                    raise AnalysisError(f"{f.qualname}: store into `{var}` with a non-constant index")
-                if not (isinstance(st.value, ast.Tuple) and len(st.value.elts) == 2 and k in (0, 1, -2, -1)):
-                    raise AnalysisError(f"{f.qualname}: `{norm_text(st)[:50]}` does not store a pair for one axis")
-                k %= 2
-                nz = FlowNormalizer(df, df.cfg.node_of(st).idx)
-                nz.no_inline = {var}
-                for j in (0, 1):
-                    if (k, j) in elems:
-                        raise AnalysisError(f"{f.qualname}: axis {k} is stored twice")
-                    src = nz.norm(ast.parse(f"{var}[{k}][{j}]", mode="eval").body)
-                    elems[(k, j)] = (nz.norm(st.value.elts[j]), src, st.value.elts[j])
-    elif isinstance(val, ast.ListComp) and len(val.generators) == 1 and dotted(val.generators[0].iter) == "self.limits" \
-            and isinstance(val.generators[0].target, ast.Tuple) and len(val.generators[0].target.elts) == 2 \
-            and isinstance(val.elt, ast.Tuple) and len(val.elt.elts) == 2:
-        a, b = (dotted(x) for x in val.generators[0].target.elts)
-        nz = FlowNormalizer(df, node)
-        nz.no_inline = {a, b}
-        for k in (0, 1):
-            for j, nm in enumerate((a, b)):
-                elems[(k, j)] = (nz.norm(val.elt.elts[j]), Poly.atom(nm), val.elt.elts[j])
-    else:
-        raise AnalysisError(f"{f.qualname}: unrecognised construction of the angular limits")
-    for k in (0, 1):
-        for j in (0, 1):
-            if (k, j) not in elems:
-                ctx.violation(rule, f"{f.qualname}[{k}][{j}]", f.where,
-                              f"the limits of axis {k} are returned unconverted (in 1/Å, not mrad)", key_detail="unconverted")
+    par = lambda p: "odd" if p else "even"
+    pitch_seen = False
+    for p0 in (0, 1):
+        for p1 in (0, 1):
+            pe = PropEval(repo, (p0, p1))
+            sym = pe.sym
+            ang = pe.prop("angular_sampling")
+            if not _pair_of_polys(ang):
+                raise AnalysisError(f"{g.qualname}: does not return a pair of numbers")
+            if not pitch_seen:
+                # the angular pixel size: scattering angle = wavelength * spatial frequency, in mrad
+                pitch_seen = True
+                for k in (0, 1):
+                    want = sym.S[k] * Poly.atom(pe.LAMBDA) * Poly.const(1000)
+                    ctx.check(ang[k] == want, rule, f"{g.qualname}[{k}]", g.where,
+                              f"angular_sampling[{k}] = sampling[{k}] * wavelength * 1e3",
+                              f"angular_sampling[{k}] is {ang[k].key()[:80]} (S{k}: sampling[{k}], λ: wavelength), not "
+                              f"{want.key()}: the angular pixel size of axis {k} is not the frequency pixel size of "
+                              "that axis times the wavelength, in mrad", key_detail="pitch")
+            val = pe.prop("angular_limits")
+            if not isinstance(val, list):
+                raise AnalysisError(f"{f.qualname}: does not return a sequence of limit pairs")
+            if len(val) != 2:
+                ctx.violation(rule, f"{f.qualname}[{par(p0)},{par(p1)}]", f.where,
+                              f"for a pattern with {par(p0)} x {par(p1)} points the property yields {len(val)} limit "
+                              "pairs instead of one per axis", key_detail="count")
                 continue
-            got, src, at = elems[(k, j)]
-            ctx.check(got == src * factor[k], rule, f"{f.qualname}[{k}][{j}]", f.loc(at),
-                      f"angular_limits[{k}][{j}] = limits[{k}][{j}] * angular_sampling[{k}] / sampling[{k}]",
-                      f"angular_limits[{k}][{j}] is {got.key()[:90]}, not limits[{k}][{j}] times the factor "
-                      f"{factor[k].key()[:60]} by which angular_sampling[{k}] differs from sampling[{k}]: the angular "
-                      "coordinates built between these limits do not match the angular pixel size / the axis they "
-                      "belong to", key_detail="factor")
+            for k in (0, 1):
+                if not _pair_of_polys(val[k]):
+                    raise AnalysisError(f"{f.qualname}: entry {k} is not a (lower, upper) pair of numbers")
+                if (k == 0 and p1 == 1) or (k == 1 and p0 == 1):
+                    continue  # each axis is reported once per own parity
+                p = (p0, p1)[k]
+                want_lo = -sym.m[k] * ang[k]
+                want_hi = (sym.m[k] + Poly.const(p - 1)) * ang[k]
+                nm = f"n = 2m{'+1' if p else ''}"
+                for j, (which, want) in enumerate((("lower", want_lo), ("upper", want_hi))):
+                    got = val[k][j]
+                    ctx.check(got == want, rule, f"{f.qualname}[axis {k - 2},{par(p)}]:{which}", f.where,
+                              f"{which} angular limit of an axis with {nm} points is {want.key()} = "
+                              f"{'-(n//2)' if which == 'lower' else '(n-1-n//2)'} * angular_sampling",
+                              f"for an axis of {nm} points (m{k}; S{k}: sampling[{k}], λ: wavelength) the {which} angular "
+                              f"limit, evaluated through the properties it reads, is {got.key()[:90]}, but the centred "
+                              f"grid (i - n//2) * angular_sampling[{k}], i = 0..n-1, "
+                              f"{'starts' if which == 'lower' else 'ends'} at {want.key()}: linspace(lower, upper, n) "
+                              "then has another pitch than angular_sampling or puts the zero angle on another pixel "
+                              "than the (fftshifted) array does", key_detail=f"{which}")
 
 
 # ------------------------------------------------------------------------------------------------ angular_coordinates
@@ -356,8 +685,10 @@ def check_angular_coordinates(ctx, rule: str, repo) -> None:
 
 RULE_TEXT = ("DiffractionPatterns.limits yields, for an axis of n = 2m (+1) points and pixel size s of the same axis, "
              "(-m s, (m-1) s) resp. (-m s, m s) — the ends of the centred grid (i - n//2) s (body interpreted over the "
-             "terms n = 2m + p for every parity, floor division exact); angular_limits[k][j] is limits[k][j] times the "
-             "factor angular_sampling[k]/sampling[k]; angular_coordinates' k-th vector is linspace(angular_limits[k][0], "
+             "terms n = 2m + p for every parity, floor division exact); angular_sampling[k] is sampling[k] * wavelength * "
+             "1e3; angular_limits — evaluated for every parity through the properties it reads (limits, offset, "
+             "max_angles, angular_sampling, ... inlined) — is (-(n//2), n-1-n//2) * angular_sampling[k] for axis k; "
+             "angular_coordinates' k-th vector is linspace(angular_limits[k][0], "
              "angular_limits[k][1], shape[-2+k]).  Otherwise the coordinate of a pixel is not (index - n//2) * "
              "sampling and blocking radii, band limits and centres of mass refer to other pixels than the array holds")
 
